@@ -543,6 +543,9 @@ func (p *Path) mapLookup(m MapV, k Value) (Value, bool) {
 	for _, e := range m.M.Entries {
 		eq := p.valEq(e.K, k)
 		if p.branch(eq) {
+			if e.Stale {
+				p.noteStaleHit(m.M)
+			}
 			return e.V, true
 		}
 	}
@@ -553,6 +556,7 @@ func (p *Path) mapStore(m MapV, k, v Value) {
 	for _, e := range m.M.Entries {
 		if p.branch(p.valEq(e.K, k)) {
 			e.V = v
+			e.Stale = false
 			return
 		}
 	}
@@ -610,9 +614,11 @@ func (p *Path) mkRange(x Value, site ssa.Instruction) Value {
 			}
 		canonical:
 			p.side["permuteHere"] = false
+			it.Src = xv.M
 			for _, i := range idx {
 				it.Keys = append(it.Keys, xv.M.Entries[i].K)
 				it.Vals = append(it.Vals, xv.M.Entries[i].V)
+				it.Stale = append(it.Stale, xv.M.Entries[i].Stale)
 			}
 		}
 		return it
@@ -629,6 +635,9 @@ func (p *Path) rangeNext(it *RangeIter, in *ssa.Next) Value {
 			return TupleV{E: []Value{mkBool(false), nil, nil}}
 		}
 		k, v := it.Keys[it.Pos], it.Vals[it.Pos]
+		if it.Pos < len(it.Stale) && it.Stale[it.Pos] && it.Src != nil && nextValueUsed(in) {
+			p.noteStaleHit(it.Src)
+		}
 		it.Pos++
 		return TupleV{E: []Value{mkBool(true), k, v}}
 	}
@@ -674,4 +683,31 @@ func (p *Path) permuteOn() bool {
 		return designated
 	}
 	return p.E.Cfg.PermuteMaps
+}
+
+// nextValueUsed: the range statement binds the map VALUE (not only the key).
+func nextValueUsed(in *ssa.Next) bool {
+	if in == nil || in.Referrers() == nil {
+		return true
+	}
+	for _, r := range *in.Referrers() {
+		if ex, ok := r.(*ssa.Extract); ok && ex.Index == 2 {
+			if rr := ex.Referrers(); rr != nil && len(*rr) > 0 {
+				return true
+			}
+		}
+	}
+	return false
+}
+
+type pooledState struct {
+	hit  bool
+	pool string
+}
+
+// noteStaleHit: this request read an entry that a previous user of the pooled map left behind.
+func (p *Path) noteStaleHit(m *MapObj) {
+	if st := p.pooledMaps[m]; st != nil {
+		st.hit = true
+	}
 }
